@@ -339,6 +339,60 @@ fn lane_smoke2(seed: u64, acc: &mut Acc) {
     assert!(w.exec(ix).ok());
 }
 
+/// Third smoke history: adaptive-fee pool (zero-copy Oracle account), swaps across tick groups with the
+/// clock moving through the filter and decay periods, constants update, two-hop v1 into a static pool.
+fn lane_smoke3(seed: u64, acc: &mut Acc) {
+    use vcheck::world::*;
+    let mut w = World::new(rnd::rng(seed ^ 0xada));
+    let c = w.add_config(300);
+    let (m1, m2, m3) = (w.add_spl_mint(6), w.add_spl_mint(6), w.add_spl_mint(9));
+    let u = w.add_user();
+    let p = w.add_adaptive_pool(c, m1, m2, 1024, 64, 3000, (30, 600, 5000, 4000, 350_000, 64, 64), 1u128 << 64, None).ok().expect("adaptive pool");
+    let q = w.add_pool(c, m2, m3, 64, 3000, 1u128 << 64, false).ok().expect("static pool");
+    let check = |w: &mut World, what: &str, acc: &mut Acc| {
+        for pi in [p, q] {
+            let pk = w.pools[pi].key;
+            for (sig, d) in vcheck::monitors::c05::check_pool(&w.bank, &pk, acc) {
+                acc.violation(format!("lane:smoke3:{sig}:{what}"), d, serde_json::json!({}));
+            }
+        }
+        acc.evaluations += 1;
+    };
+    for (pool, lo, hi, l) in [(p, -1280, 1280, 3_000_000_000u128), (p, -256, 192, 1_000_000_000), (q, -2560, 2560, 2_000_000_000)] {
+        let (ix, info) = w.open_position_ix(pool, u, lo, hi, false);
+        assert!(w.exec(ix).ok());
+        w.positions.push(info);
+        let i = w.positions.len() - 1;
+        w.ensure_tick_array(pool, lo, false);
+        w.ensure_tick_array(pool, hi, true);
+        let ix = w.modify_v1(i).increase_liquidity(l, u64::MAX, u64::MAX);
+        let o = w.exec(ix);
+        assert!(o.ok(), "{:?} {:?}", o.out.err, o.out.logs);
+        check(&mut w, "increase", acc);
+    }
+    for (amt, dir, dt) in [(4_000_000u64, true, 1i64), (9_000_000, false, 10), (2_000_000, true, 45), (6_000_000, true, 700)] {
+        w.advance_clock(dt);
+        let ix = w.swap_ix(p, u, amt, 0, 0, true, dir, dt % 2 == 0);
+        let o = w.exec(ix);
+        assert!(o.ok(), "{:?} {:?}", o.out.err, o.out.logs);
+        check(&mut w, "adaptive_swap", acc);
+    }
+    let d1 = w.pools[p].mint_a == m1;
+    let d2 = w.pools[q].mint_a == m2;
+    let ix = w.two_hop_ix(p, q, u, 1_200_000, 0, true, d1, d2, 0, 0, false);
+    let o = w.exec(ix);
+    assert!(o.ok(), "{:?} {:?}", o.out.err, o.out.logs);
+    check(&mut w, "two_hop", acc);
+    let cfg = w.configs[c].clone();
+    let ix = vcheck::ix::build::SetAdaptiveFeeConstants { whirlpool: w.pools[p].key, whirlpools_config: cfg.key, oracle: w.pools[p].oracle, fee_authority: cfg.fee_authority }.ix(Some(25), None, Some(4000), None, None, Some(32), None);
+    let o = w.exec(ix);
+    assert!(o.ok(), "{:?} {:?}", o.out.err, o.out.logs);
+    w.advance_clock(5);
+    let ix = w.swap_ix(p, u, 3_000_000, 0, 0, true, false, true);
+    assert!(w.exec(ix).ok());
+    check(&mut w, "after_constants", acc);
+}
+
 fn main() {
     let a: Vec<String> = std::env::args().collect();
     let name = a.get(1).map(|s| s.as_str()).unwrap_or("c13");
@@ -353,8 +407,9 @@ fn main() {
         "c02" => lane_c02(part, seed, n, &mut acc),
         "c08" => lane_c08(part, seed, n, &mut acc),
         "c09" => lane_c09(part, parts, &mut acc),
-        "smoke" if part % 2 == 0 => lane_smoke(seed, &mut acc),
-        "smoke" => lane_smoke2(seed, &mut acc),
+        "smoke" if part % 3 == 0 => lane_smoke(seed, &mut acc),
+        "smoke" if part % 3 == 1 => lane_smoke2(seed, &mut acc),
+        "smoke" => lane_smoke3(seed, &mut acc),
         _ => {
             eprintln!("unknown lane {name}");
             std::process::exit(2);
